@@ -788,6 +788,18 @@ def rule_R10(res, prog):
                         gf = gf or cu.guard_facts(fn)
                         fs = gf.get(b["id"], ())
                         ok = any((txt == "(ssl->hsState == %d)" % DONE and tr) or (txt == "(ssl->hsState != %d)" % DONE and not tr) for (txt, tr) in fs)
+                        if not ok:
+                            # a HelloRequest during a renegotiation the client started (re-handshakes compiled in): both directions are
+                            # already protected, i.e. an earlier handshake of this connection completed
+                            RS_, WS_ = prog.const("SSL_FLAGS_READ_SECURE"), prog.const("SSL_FLAGS_WRITE_SECURE")
+                            ok = any(txt == "(ssl->flags & %d)" % RS_ and tr for (txt, tr) in fs) and \
+                                any(txt == "(ssl->flags & %d)" % WS_ and tr for (txt, tr) in fs)
+                        if not ok:
+                            # the HelloRequest arm (re-handshakes compiled in): the dispatcher admits that message only in state DONE
+                            # (C06.R1b) and has set hsState = HELLO_REQUEST; the arm puts the state back to DONE with the alert
+                            ok = any(q.get("k") == "bin" and q["op"] == "=" and cu.ftext(strip(q["l"]) or {}) == "ssl->hsState" and
+                                     (strip(q["r"]) or {}).get("k") == "int" and strip(q["r"])["v"] == DONE
+                                     for i2, l2, x2 in cu.block_exprs(b) for q in walk(x2))
                         f_ = None
                         if not ok:
                             f_ = Finding(PROP, rid, fn.name, "no_renegotiation raised outside an established connection",
